@@ -272,19 +272,22 @@ class ModuleCheck:
 
 
 def match_known(known, pid, clause, rec):
+    """A known finding masks a failing clause instance only if its discriminator
+    matches the failing trace line: every dotted path of `match` (or of one of
+    the alternatives in `match_any`) must have the stated value."""
+    def get(path):
+        cur = rec
+        for part in path.split("."):
+            cur = cur.get(part) if isinstance(cur, dict) else None
+        return cur
+
     for kf in known.get("findings", []):
         if kf["property"] != pid or clause not in kf["clauses"]:
             continue
-        ok = True
-        for path, want in kf.get("match", {}).items():
-            cur = rec
-            for part in path.split("."):
-                cur = cur.get(part) if isinstance(cur, dict) else None
-            if cur != want:
-                ok = False
-                break
-        if ok:
-            return kf
+        alts = kf.get("match_any") or [kf.get("match", {})]
+        for alt in alts:
+            if all(get(path) == want for path, want in alt.items()):
+                return kf
     return None
 
 
